@@ -378,6 +378,18 @@ impl<'r, 'b> PeekRr<'r, 'b> {
         ))
     }
 
+    /// Returns the resource record's TTL field exactly as it appears
+    /// on the wire. Unlike [`PeekRr::ttl`], values with the most
+    /// significant bit set are not mapped to zero; pseudo-RRs such as
+    /// OPT reuse all 32 bits of the field for other data.
+    pub fn raw_ttl(&self) -> u32 {
+        u32::from_be_bytes(
+            self.reader.octets[self.owner_end + 4..self.owner_end + 8]
+                .try_into()
+                .unwrap(),
+        )
+    }
+
     /// Returns the resource record's RDLENGTH field.
     pub fn rdlength(&self) -> u16 {
         u16::from_be_bytes(
